@@ -8,6 +8,8 @@ import (
 	"path/filepath"
 	"strconv"
 	"strings"
+	"unicode"
+	"unicode/utf8"
 
 	"golang.org/x/perf/benchfmt"
 	"golang.org/x/perf/benchproc"
@@ -138,6 +140,72 @@ func c01ReadBack(out []byte) (*c02Obs, hx.Sx, error) {
 
 // ---------- histories through the API ----------
 
+// c01KeyIsKey: the key rule of the format (non-empty, first rune lower case, no
+// white space, no upper case, no colon).
+func c01KeyIsKey(k string) bool {
+	if k == "" {
+		return false
+	}
+	for i, r := range k {
+		if i == 0 && !unicode.IsLower(r) {
+			return false
+		}
+		if unicode.IsSpace(r) || unicode.IsUpper(r) || r == ':' {
+			return false
+		}
+	}
+	return true
+}
+
+func c01HasSpace(b []byte) bool {
+	for len(b) > 0 {
+		r, n := utf8.DecodeRune(b)
+		if unicode.IsSpace(r) {
+			return true
+		}
+		b = b[n:]
+	}
+	return false
+}
+
+// c01ResultTags: which known findings of C01 the record res, as handed to
+// Writer.Write, falls under.  Decided from the record alone.
+func c01ResultTags(res *benchfmt.Result, set map[string]bool) {
+	for _, c := range res.Config {
+		if !c.File {
+			continue // internal configuration is not written
+		}
+		if !c01KeyIsKey(c.Key) {
+			set["C01_file_key_not_a_key"] = true
+		}
+		v := c.Value
+		if len(v) == 0 {
+			set["C01_empty_file_value"] = true
+			continue
+		}
+		if i := bytes.IndexByte(v, '\n'); i >= 0 {
+			set["C01_value_contains_LF"] = true
+			v = v[:i]
+		}
+		if len(v) > 0 && v[len(v)-1] == '\r' {
+			set["C01_value_ends_with_CR"] = true
+			v = v[:len(v)-1]
+		}
+		if len(v) > 0 && (v[0] == ' ' || v[0] == '\t') {
+			set["C01_value_starts_with_blank"] = true
+		}
+	}
+	if len(res.Values) == 0 {
+		set["C01_result_without_measurements"] = true
+	}
+	if c01HasSpace([]byte(res.Name)) {
+		set["C01_name_with_white_space"] = true
+	}
+}
+
+var c01FindingTags = []string{"C01_value_ends_with_CR", "C01_value_starts_with_blank", "C01_value_contains_LF", "C01_empty_file_value",
+	"C01_file_key_not_a_key", "C01_result_without_measurements", "C01_name_with_white_space", "C01_repeated_unit_metadata"}
+
 func c01History(o *hx.Out, steps []c01Step, tags ...string) (err error) {
 	in := c01Input{Kind: "history", Steps: steps}
 	key := fmt.Sprintf("%+v", steps)
@@ -153,7 +221,8 @@ func c01History(o *hx.Out, steps []c01Step, tags ...string) (err error) {
 	res := &benchfmt.Result{}
 	ft := &c01Fmt{seen: map[uint64]bool{}}
 	var sx []hx.Sx
-	crValue := false
+	found := map[string]bool{}       // known-finding classes the written records fall under
+	unitSeen := map[[2]string]bool{} // (tidied unit, key) of the unit-metadata records written so far
 	// class bookkeeping: a key added into the slot just vacated by a deletion
 	// (no other key added in between) with the opposite kind of the deleted entry
 	delSet, delKind, delKey := false, false, ""
@@ -181,6 +250,11 @@ func c01History(o *hx.Out, steps []c01Step, tags ...string) (err error) {
 			if e := w.Write(m); e != nil {
 				return e
 			}
+			_, tu := benchunit.Tidy(1, st.Unit[2])
+			if unitSeen[[2]string{tu, st.Unit[1]}] {
+				found["C01_repeated_unit_metadata"] = true
+			}
+			unitSeen[[2]string{tu, st.Unit[1]}] = true
 			sx = append(sx, hx.L(hx.I(1), hx.S(st.Unit[0]), hx.S(st.Unit[1]), hx.S(st.Unit[2]), hx.S(st.Unit[3])))
 			continue
 		case "syntaxerror":
@@ -233,10 +307,8 @@ func c01History(o *hx.Out, steps []c01Step, tags ...string) (err error) {
 		var cx []hx.Sx
 		for _, c := range res.Config {
 			cx = append(cx, hx.L(hx.S(c.Key), hx.B(c.Value), hx.Bool(c.File)))
-			if c.File && len(c.Value) > 0 && c.Value[len(c.Value)-1] == '\r' {
-				crValue = true
-			}
 		}
+		c01ResultTags(res, found)
 		if e := w.Write(res); e != nil {
 			return e
 		}
@@ -251,9 +323,14 @@ func c01History(o *hx.Out, steps []c01Step, tags ...string) (err error) {
 	if e != nil {
 		return e
 	}
-	if crValue {
-		tags = append(tags, "C01_value_ends_with_CR")
-		o.Count("class:file-value-ends-with-CR")
+	for _, t := range c01FindingTags {
+		if found[t] {
+			tags = append(tags, t)
+			o.Count("class:history:" + t)
+		}
+	}
+	if len(found) == 0 {
+		o.Count("class:history:every-record-expressible")
 	}
 	if ft.diff > 0 {
 		o.Count("fmt-%v-differs-from-strconv-g")
@@ -299,16 +376,38 @@ func c01Value(r *hx.Rng) c01Val {
 	return c01Val{Value: tv, Unit: tu, OrigValue: x, OrigUnit: u}
 }
 
-func c01GenHistory(r *hx.Rng, cr bool) []c01Step {
+// c01Hostile: record classes the line format cannot express (each a known
+// finding of C01), switched on per history.  The tags are NOT derived from these
+// options but from the records written (c01ResultTags).
+type c01Hostile struct{ cr, blank, lf, empty, key, nomeas, name, unitdup bool }
+
+var c01BlankVals = []string{" v", "\tx y", "  ", " \tv", "  linux"}
+var c01LFVals = []string{"a\nnot a line", "a\nj9: injected", "x\n", "\nz", "a\r\nb", "v\n\nw", "linux\nj9: injected\nmore text"}
+var c01BadKeys = []string{"Key", "k 1", "kK", "1k", ""}
+var c01SpaceNames = []string{"a b", "X 5", "a\tb", "Fib/n=10 -8"}
+
+func c01GenHistory(r *hx.Rng, h c01Hostile) []c01Step {
 	n := r.Range(1, 12)
 	nk := r.Range(1, 5)
 	keys := c01Keys[:nk]
+	if h.key {
+		keys = append(append([]string{}, keys...), c01BadKeys[r.Intn(len(c01BadKeys))])
+		if r.Bool() {
+			keys = append(keys, c01BadKeys[r.Intn(len(c01BadKeys))])
+		}
+	}
 	present := map[string]bool{}
 	var order []string // first-seen order of keys, as the writer keeps it
 	inOrder := map[string]bool{}
 	val := func() string {
-		if cr && r.Chance(0.3) {
+		if h.cr && r.Chance(0.3) {
 			return c01KVals[r.Intn(len(c01KVals))] + "\r"
+		}
+		if h.blank && r.Chance(0.3) {
+			return c01BlankVals[r.Intn(len(c01BlankVals))]
+		}
+		if h.lf && r.Chance(0.3) {
+			return c01LFVals[r.Intn(len(c01LFVals))]
 		}
 		return c01KVals[r.Intn(len(c01KVals))]
 	}
@@ -316,7 +415,7 @@ func c01GenHistory(r *hx.Rng, cr bool) []c01Step {
 	kind := map[string]bool{} // file?
 	lastDel, lastDelKind := "", false
 	for i := 0; i < n; i++ {
-		if r.Chance(0.08) {
+		if r.Chance(0.08) || h.unitdup && r.Chance(0.25) {
 			u := []string{"ns/op", "sec/op", "MB/s", "widgets", "B/s"}[r.Intn(5)]
 			_, tu := benchunit.Tidy(1, u)
 			steps = append(steps, c01Step{Kind: "unit", Unit: [4]string{tu, []string{"better", "assume"}[r.Intn(2)], u, []string{"lower", "higher", "exact"}[r.Intn(3)]}})
@@ -367,6 +466,9 @@ func c01GenHistory(r *hx.Rng, cr bool) []c01Step {
 				kind[k] = false
 				return c01Edit{Op: "set", K: k, V: val()} // SetConfig on a file key: turns internal
 			case 3:
+				if h.empty && r.Chance(0.5) {
+					return c01Edit{Op: "value", K: k, V: ""} // Config[i].Value emptied in place: the key stays
+				}
 				return c01Edit{Op: "value", K: k, V: val()} // value changed in place
 			case 4:
 				present[k] = false
@@ -411,7 +513,13 @@ func c01GenHistory(r *hx.Rng, cr bool) []c01Step {
 		order = no
 		st.Name = []string{"X", "Fib/n=10-8", "é", "", "Enc/size=1k", "a:b"}[r.Intn(6)]
 		st.Iters = []int{1, 100, 0, -5, math.MaxInt64, 20000, math.MinInt64}[r.Intn(7)]
+		if h.name && r.Chance(0.3) {
+			st.Name = c01SpaceNames[r.Intn(len(c01SpaceNames))]
+		}
 		nv := r.Range(1, 3)
+		if h.nomeas && r.Chance(0.3) {
+			nv = 0
+		}
 		for j := 0; j < nv; j++ {
 			v := c01Value(r)
 			st.vals = append(st.vals, v)
@@ -533,7 +641,7 @@ func c01Text(o *hx.Out, dir string, names, contents, paths []string, tags ...str
 }
 
 func genC01(o *hx.Out, r *hx.Rng, tier string, replay string) error {
-	o.Rule = "(a) histories of 1-12 records written by benchfmt.Writer: results whose configuration is edited between writes through the API over 1-5 keys (add / re-add as file or internal key, change, in-place value change, delete, flip file<->internal, SetConfig on a file key, no change; a deletion together with a change or deletion of the next key in the writer's order), 1-3 measurements from {0,-0,+-Inf,NaN,subnormal,17-significant-digit,random bits} x {rescaled by Tidy, plain, API-built without original}, unit-metadata and SyntaxError records in between; (b) arbitrary texts from the C02 generator (1-3 files, label=path arguments) through the cmd/benchfilter loop (Files -> Filter \"*\" -> Writer), 35% of the files from a churn generator (1-3 keys, the main key taking 4-8 successive values of ONE length with 1-2 results after each change, other keys changed / deleted / re-added around it, unit and foreign lines); (c) the REAL cmd/benchfilter binary built from the module under test, run on such files (1-3 files, label=path, repeated paths; 15% through stdin) with the queries *, key:value and .unit:literal (mostly naming a key/value/unit present in the input), its stdout read back and compared with the filtered record stream (results, file configuration, unit metadata); (d) one Reader reused through Reset over 2-4 inputs, with and without an initial label on the key that the first line of the input sets, every record streamed into one Writer. Histories favour re-adding the key just deleted (or another key) with the opposite kind into the vacated slot. The written bytes are read back by benchfmt.Reader. Class C01_value_ends_with_CR (a file value ending in CR) is tagged; so is C01_reprinted_line_exceeds_scanner_limit (1-2 texts with a result line just under 64 KiB whose measurements re-print longer, 1e9 -> 1e+09, so that the written line exceeds the reader's line limit). non-trivial = more than one record; distinct by history / input bytes"
+	o.Rule = "(a) histories of 1-12 records written by benchfmt.Writer: results whose configuration is edited between writes through the API over 1-5 keys (add / re-add as file or internal key, change, in-place value change, delete, flip file<->internal, SetConfig on a file key, no change; a deletion together with a change or deletion of the next key in the writer's order), 1-3 measurements from {0,-0,+-Inf,NaN,subnormal,17-significant-digit,random bits} x {rescaled by Tidy, plain, API-built without original}, unit-metadata and SyntaxError records in between; (b) arbitrary texts from the C02 generator (1-3 files, label=path arguments) through the cmd/benchfilter loop (Files -> Filter \"*\" -> Writer), 35% of the files from a churn generator (1-3 keys, the main key taking 4-8 successive values of ONE length with 1-2 results after each change, other keys changed / deleted / re-added around it, unit and foreign lines); (c) the REAL cmd/benchfilter binary built from the module under test, run on such files (1-3 files, label=path, repeated paths; 15% through stdin) with the queries *, key:value and .unit:literal (mostly naming a key/value/unit present in the input), its stdout read back and compared with the filtered record stream (results, file configuration, unit metadata); (d) one Reader reused through Reset over 2-4 inputs, with and without an initial label on the key that the first line of the input sets, every record streamed into one Writer. Histories favour re-adding the key just deleted (or another key) with the opposite kind into the vacated slot. The written bytes are read back by benchfmt.Reader. Records the line format cannot express are generated on purpose, each class switched on in about 2.5% of the histories plus directed witnesses, and tagged FROM THE RECORDS WRITTEN (not from the option): a file value ending in CR (C01_value_ends_with_CR), starting with a blank/tab or all blank (C01_value_starts_with_blank), containing LF with an inert rest, a rest that sets a fresh key j9, an empty first line, CR LF (C01_value_contains_LF), emptied in place (C01_empty_file_value); a file key that is no key of the format: Key, \"k 1\", kK, 1k, empty (C01_file_key_not_a_key); a result without measurements (C01_result_without_measurements) or with white space in its name (C01_name_with_white_space); a unit-metadata record repeated for its (tidied unit, key) with the same or another value (C01_repeated_unit_metadata); the same shapes on INTERNAL configuration as an untagged control. Tagged too is C01_reprinted_line_exceeds_scanner_limit (1-2 texts with a result line just under 64 KiB whose measurements re-print longer, 1e9 -> 1e+09, so that the written line exceeds the reader's line limit). non-trivial = more than one record; distinct by history / input bytes"
 	nh, nt, nb, nr := 1500, 400, 220, 300
 	if tier == "thorough" {
 		nh, nt, nb, nr = 40000, 8000, 3000, 6000
@@ -572,8 +680,40 @@ func genC01(o *hx.Out, r *hx.Rng, tier string, replay string) error {
 	if err := c01History(o, []c01Step{one(kv("setfile", "k", "v\r")), one()}, "directed"); err != nil {
 		return err
 	}
+	// records the line format cannot express (known findings; the tags come from the records)
+	unit := func(u, k, v string) c01Step {
+		_, tu := benchunit.Tidy(1, u)
+		return c01Step{Kind: "unit", Unit: [4]string{tu, k, u, v}}
+	}
+	nomeas := one(kv("setfile", "k", "v"))
+	nomeas.vals = nil
+	spaced := one(kv("setfile", "k", "v"))
+	spaced.Name = "a b"
+	inexpressible := [][]c01Step{
+		{one(kv("setfile", "k", " v")), one()},
+		{one(kv("setfile", "k", "a\nj: injected")), one(kv("set", "k", "")), one()},
+		{one(kv("setfile", "k", "v")), one(kv("value", "k", "")), one(kv("flip", "k", ""))},
+		{one(kv("setfile", "k", "\r")), one()},
+		{one(kv("setfile", "k", "  ")), one()},
+		{one(kv("setfile", "Key", "v"), kv("setfile", "k", "w")), one(kv("set", "Key", ""))},
+		{nomeas, one()},
+		{spaced, one()},
+		{unit("ns/op", "better", "lower"), one(), unit("ns/op", "better", "lower"), unit("sec/op", "better", "higher"), unit("ns/op", "assume", "exact")},
+		{one(kv("setfile", "k", " a\r\nj9: injected\r")), one(kv("setfile", "k", "a")), one()},
+	}
+	for _, h := range inexpressible {
+		if err := c01History(o, h, "directed"); err != nil {
+			return err
+		}
+	}
+	// control: the same shapes on INTERNAL configuration are not written and must round-trip strictly
+	if err := c01History(o, []c01Step{one(kv("set", "k", "a\nj: injected"), kv("set", "Key", " v\r")), one(kv("value", "k", ""))}, "directed", "control"); err != nil {
+		return err
+	}
 	for i := 0; i < nh; i++ {
-		if err := c01History(o, c01GenHistory(r, r.Chance(0.03)), "random"); err != nil {
+		h := c01Hostile{cr: r.Chance(0.03), blank: r.Chance(0.025), lf: r.Chance(0.025), empty: r.Chance(0.05), key: r.Chance(0.025),
+			nomeas: r.Chance(0.025), name: r.Chance(0.025), unitdup: r.Chance(0.025)}
+		if err := c01History(o, c01GenHistory(r, h), "random"); err != nil {
 			return err
 		}
 	}
